@@ -13,9 +13,10 @@ Definition Qltb (a b : Q) : bool := match a ?= b with Lt => true | _ => false en
 Definition Qlebb (a b : Q) : bool := match a ?= b with Gt => false | _ => true end.
 Definition Qeqb (a b : Q) : bool := match a ?= b with Eq => true | _ => false end.
 
+(* floor(sqrt(floor(q * 4^96))) / 2^96: exact on squares of multiples of 2^-96 (all the dyadic grids used by the harnesses),
+   2^-96-accurate otherwise; the size of the result does not grow with the size of q *)
 Definition Qsqrt_approx (q : Q) : Q :=
-  let n := Qnum q in let d := Zpos (Qden q) in
-  Qred (Z.sqrt (n * d * Zpos PREC * Zpos PREC) # (Qden q * PREC)).
+  Qred (Z.sqrt (Qfloor (q * (Zpos (PREC * PREC) # 1))) # PREC).
 
 Fixpoint taylor_exp (n : nat) (k : Z) (term acc y : Q) : Q :=
   match n with
